@@ -9,7 +9,9 @@ EXTENDS ScriptVM, TLC, Json
 CONSTANTS Family
 
 \* ---- operands ----------------------------------------------------------------------------------
-Edge == {<<>>, <<0>>, <<128>>, <<1>>, <<129>>, <<127>>, <<255>>, <<2>>, <<16>>, <<17>>,
+\* numbers beyond 32 / 64 bits (post-Genesis operands): 2^31, 2^32, 2^63, 2^64, -2^63
+Wide == {<<0, 0, 0, 128, 0>>, <<0, 0, 0, 0, 1>>, <<0, 0, 0, 0, 0, 0, 0, 128, 0>>, <<0, 0, 0, 0, 0, 0, 0, 0, 1>>, <<0, 0, 0, 0, 0, 0, 0, 128, 128>>}
+Edge == Wide \cup {<<>>, <<0>>, <<128>>, <<1>>, <<129>>, <<127>>, <<255>>, <<2>>, <<16>>, <<17>>,
          <<0, 1>>, <<0, 128>>, <<1, 0>>, <<255, 127>>, <<255, 255>>, <<255, 0>>, <<128, 0>>,
          <<255, 255, 255, 127>>, <<255, 255, 255, 255>>, <<0, 0, 0, 128>>, <<1, 0, 0, 0>>,
          <<0, 0, 0, 128, 0>>, <<255, 255, 255, 255, 127>>,
@@ -30,6 +32,7 @@ BinaryOps == {OP_ADD, OP_SUB, OP_MUL, OP_DIV, OP_MOD, OP_LSHIFT, OP_RSHIFT, OP_B
               OP_NUMEQUALVERIFY, OP_NUMNOTEQUAL, OP_LESSTHAN, OP_GREATERTHAN, OP_LESSTHANOREQUAL,
               OP_GREATERTHANOREQUAL, OP_MIN, OP_MAX, OP_CAT, OP_SPLIT, OP_NUM2BIN, OP_AND, OP_OR, OP_XOR, OP_EQUAL,
               OP_EQUALVERIFY, OP_PICK, OP_ROLL, OP_SWAP, OP_NIP, OP_OVER, OP_TUCK, OP_2DROP, OP_2DUP}
+IndexOps == {OP_PICK, OP_ROLL, OP_SPLIT, OP_NUM2BIN, OP_LSHIFT, OP_RSHIFT}
 TernaryOps == {OP_WITHIN, OP_ROT, OP_3DUP, OP_PICK, OP_ROLL, OP_2OVER, OP_2SWAP, OP_2ROT}
 FlowAlpha == {<<OP_0>>, <<OP_1>>, <<OP_IF>>, <<OP_NOTIF>>, <<OP_ELSE>>, <<OP_ENDIF>>, <<OP_RETURN>>, <<OP_VERIF>>, <<1, 2>>}
 
@@ -59,6 +62,8 @@ Locks == CASE Family = "unary" -> {PushMin(a) \o <<op>> \o tail : a \in Edge, op
            [] Family = "ternary" -> {PushMin(a) \o PushMin(b) \o PushMin(c) \o <<op>> : a \in Small, b \in Small, c \in Small, op \in TernaryOps}
            [] Family = "shift" -> {PushMin(x) \o PushMin(Encode(FromInt(n))) \o <<op>> \o <<OP_SIZE>> :
                                      x \in Blobs, n \in 0..74, op \in {OP_LSHIFT, OP_RSHIFT}}
+                                  \cup {PushMin(x) \o PushMin(w) \o <<op>> \o <<OP_SIZE>> : x \in Blobs, w \in Wide, op \in {OP_LSHIFT, OP_RSHIFT}}
+           [] Family = "wide" -> {PushMin(a) \o PushMin(b) \o PushMin(w) \o <<op>> : a \in Small, b \in Blobs, w \in Wide \cup {<<255, 255, 255, 255, 127>>, <<255, 255, 255, 127>>}, op \in IndexOps \cup {OP_WITHIN, OP_ADD, OP_MUL, OP_CHECKMULTISIG}}
            [] Family = "flow5" -> {Concat(s) \o <<OP_1>> : s \in SeqsUpTo(FlowAlpha, 5)}
            [] Family = "flow4" -> {Concat(s) \o <<OP_1>> : s \in SeqsUpTo(FlowAlpha, 4)}
            [] Family = "locktime" -> {PushMin(v) \o <<op>> \o tl : v \in LockVals, op \in {OP_CLTV, OP_CSV}, tl \in {<<>>, <<OP_DROP, OP_1>>}}
@@ -71,7 +76,12 @@ Locks == CASE Family = "unary" -> {PushMin(a) \o <<op>> \o tail : a \in Edge, op
 UAlpha == {<<OP_1>>, <<OP_0>>, <<OP_TOALTSTACK>>, <<OP_RETURN>>, <<1, 2>>, <<OP_IF>>, <<OP_ENDIF>>, <<OP_DUP>>}
 LAlpha == {<<OP_FROMALTSTACK>>, <<OP_1>>, <<OP_DEPTH>>, <<OP_RETURN>>, <<OP_VERIF>>, <<OP_IF>>, <<OP_ENDIF>>, <<OP_ELSE>>, <<2, 7>>, <<OP_DROP>>}
 TwoLen == IF Family = "two3" THEN 3 ELSE 2
-Progs == IF Family \in {"two2", "two3"}
+\* unlocking scripts with conditionals and OP_RETURN (what must not leak into the locking script)
+ULocks == {<<OP_1>>, <<OP_DEPTH>>, <<OP_0, OP_IF, OP_ELSE, OP_1, OP_ENDIF>>}
+UFlows == {a \in SeqsUpTo(FlowAlpha, 4) : (\E i \in DOMAIN a : a[i] = <<OP_RETURN>>) /\ (\E i \in DOMAIN a : a[i] \in {<<OP_IF>>, <<OP_NOTIF>>})}
+Progs == IF Family = "uflow4"
+         THEN {[u |-> Concat(a), l |-> b] : a \in UFlows, b \in ULocks}
+         ELSE IF Family \in {"two2", "two3"}
          THEN {[u |-> Concat(a), l |-> Concat(b)] : a \in SeqsUpTo(UAlpha, TwoLen), b \in SeqsUpTo(LAlpha, TwoLen)}
          ELSE {[u |-> <<>>, l |-> x] : x \in Locks}
 
@@ -84,7 +94,8 @@ TwoCtxs == {[genesis |-> g, f |-> [Flags(FALSE, FALSE) EXCEPT !.p2sh = pc[1], !.
 LockCtxs == {[genesis |-> g, f |-> [Flags(md, FALSE) EXCEPT !.discourage = dc, !.cltv = on, !.csv = on], lt |-> lt, seq |-> sq, ver |-> vr,
                sigmode |-> "none", sx |-> <<>>] :
                g \in BOOLEAN, md \in BOOLEAN, dc \in BOOLEAN, on \in BOOLEAN, lt \in LockLts, sq \in LockSeqs, vr \in {<<1, 0, 0, 0>>, <<2, 0, 0, 0>>}}
-Ctxs == IF Family = "locktime" THEN LockCtxs ELSE IF Family \in {"two2", "two3"} THEN TwoCtxs ELSE
+UCtxs == {c \in TwoCtxs : ~c.f.p2sh /\ ~c.f.sigpushonly /\ ~c.f.cleanstack}
+Ctxs == IF Family = "locktime" THEN LockCtxs ELSE IF Family = "uflow4" THEN UCtxs ELSE IF Family \in {"two2", "two3"} THEN TwoCtxs ELSE
         {[genesis |-> g, f |-> Flags(md, mi), lt |-> <<0, 0, 0, 0>>, seq |-> <<255, 255, 255, 255>>, ver |-> <<1, 0, 0, 0>>, sigmode |-> "none", sx |-> <<>>] :
            g \in BOOLEAN, md \in BOOLEAN, mi \in IF Family \in {"flow5", "flow4", "unary", "nonmin"} THEN BOOLEAN ELSE {FALSE}}
 
